@@ -83,7 +83,7 @@ SPECIAL = ['/', '\\', '\0', '%', '.', '..', '-', '_', ' ', ':', '~', '*', '?', '
 FRAGMENTS = ['..', '../', '/..', '..\\', '%2e', '%2E%2E', '%2f', '%2F', '%5C', '%5c', '%00', '%25', '%252F', '%c0%af', 'etc', 'passwd',
              'tmp', 'x', 'a', 'B', '0', '1', '2020-08-25T00:00:00Z', 'default', 'C:', 'con', 'nul', '....//', './', '/./', '//',
              'time', 'dim_', 'DIM_', 'secret', 'outside']
-SEEDS = ['', '.', '..', '...', '../', '../..', '../../../etc/passwd', '/etc/passwd', '/', '//', '/abs/olute', '..\\..\\x', '\\', '\\\\srv\\share',
+SEEDS = ['x%2F/../../..', '%25/../x', '..%5C/..', '%00/\0', '', '.', '..', '...', '../', '../..', '../../../etc/passwd', '/etc/passwd', '/', '//', '/abs/olute', '..\\..\\x', '\\', '\\\\srv\\share',
          '%2e%2e%2f', '%2F', '%252F', '%00', 'a\0b', '\0', ' ', '-', '--', 'a/b', 'a%2Fb', 'a%252Fb', 'a%b', 'a%25b', '....//', 'A' * 300,
          'C:\\x', 'C:', '~root', '$HOME', '${x}', '`id`', '2020-08-25T00:00:00Z', 'default', '..%2F..', '.%2E/', '/../', '../' * 12 + 'x',
          '\uff0e\uff0e\uff0f', '..\u2215..', 'a\nb', 'caf\u00e9', '\u0130stanbul', '%', '%%', '%2', '%2F%2F', '/%2F/', '%5C', '\\%5C', '\0%00',
@@ -278,7 +278,9 @@ def stream_dims(ctx, corpus):
     cases += [{'time': '../../../x'}, {'DIM_/../../y': '1'}, {'time': 'a/b'}, {'time': 'a%2Fb'}, {'time': 'a%252Fb'}, {'TIME': 'a', 'time': 'b'},
               {'time': 'b', 'TIME': 'a'}, {'dim_b': '1', 'dim_a': '2', 'time': '3', 'elevation': '4', 'zeta': '5'}, {'time': ''}, {'': ''},
               {'': '..'}, {'.': '.'}, {'dim_x': '\0'}, {'dim_x': '\\..\\..'}, {'d\u0130m_x': '1', 'dim_y': '2'}, {'DIM_\u0130': '/'},
-              {'time': '.'}, {'time': '..'}, {'elevation': '/'}, {'/': '/'}, {'..': '..'}, {'a': 'b', 'A': 'c'}]
+              {'time': '.'}, {'time': '..'}, {'elevation': '/'}, {'/': '/'}, {'..': '..'}, {'a': 'b', 'A': 'c'},
+              {'time': 'x%2F/../../../../../escaped'}, {'DIM_%25/../../../y': '1'}, {'elevation': '%5C\\..\\..'}, {'dim_x': '%00/../..\0'},
+              {'time': 'a%2F/b'}, {'time': 'a%252F%2Fb'}]
     for _ in range(ctx.n(450, 3500)):
         d = gen_dims(rng)
         cases.append(d)
@@ -387,7 +389,8 @@ def stream_paths(ctx, corpus):
     from mapproxy.cache.file import FileCache
     hostile = [{'DIM_/../../../../x': '1'}, {'dim_/../../../../x': '../../../../y'}, {'TIME': '../../../../x'}, {'elevation': '/abs'},
                {'dim_..': '..'}, {'DIM_\\..\\..': '\\..\\x'}, {'dim_a/../../..': 'a/b', 'time': '2020-01-01'}, {'dim_\0': '\0'},
-               {'/../../../..': 'v'}, {'..': '..'}, {'': '/../../../..'}]
+               {'/../../../..': 'v'}, {'..': '..'}, {'': '/../../../..'},
+               {'TIME': 'x%2F/../../../../../escaped'}, {'DIM_%25/../../../../n': '%5C/../../../../v'}]
     for i in range(ctx.n(360, 2400)):
         layout = LAYOUTS[i % len(LAYOUTS)]
         x, y, z = gen_coord(rng, 40)
@@ -777,10 +780,11 @@ def stream_fsops(ctx, corpus):
     terms3, descr3 = [], []
     dimsets = [{'time': '2020', 'elevation': '100', 'dim_run': 'a'}, {'time': '2020', 'elevation': '100'}, {'time': '2020'}, None, {}, {'time': '../../..'}]
     for i in range(ctx.n(12, 60)):
-        cdir = os.path.join(base, 'sc%d' % i, 'cache')
-        layout = ['tc', 'mp', 'tms', 'reverse_tms'][i % 4]
+        # deep below the scratch directory: a file placed 'n directories above the tile' is still inside the scratch directory
+        cdir = os.path.join(base, 'sc%d' % i, 'd1', 'd2', 'd3', 'd4', 'd5', 'd6', 'cache')
+        layout = ['tc', 'mp', 'tms', 'reverse_tms', 'arcgis', 'quadkey'][i % 6]
         cache = FileCache(cdir, 'png', directory_layout=layout, link_single_color_images=True)
-        order = list(dimsets) if i < 4 else rng.sample(dimsets, len(dimsets))
+        order = list(dimsets) if i < 6 else rng.sample(dimsets, len(dimsets))
         history = []
         for j, d in enumerate(order):
             coord = (j, i % 3, 2)
@@ -808,10 +812,17 @@ def stream_fsops(ctx, corpus):
                 continue
             text = os.readlink(loc)
             target = os.path.normpath(os.path.join(os.path.dirname(loc), text))
-            if not (target == cdir or target.startswith(cdir + '/')) or target != os.path.normpath(real):
-                ctx.fail('fsops,link-in-cache-points-outside-the-cache-dir', 'after %r the tile %s is the link %r which resolves to %s (single colour file: %s)' % (
+            written = sorted(set(os.path.normpath(_fs_text(x)) for kd, ev, p_ in rec.events if kd == 'write' for x in p_ if _fs_text(x)))
+            stray = [x for x in written if not (x == cdir or x.startswith(cdir + '/') or cdir.startswith(x + '/'))]
+            if stray or not (target == cdir or target.startswith(cdir + '/')):
+                ctx.fail('fsops,link-in-cache-points-outside-the-cache-dir', 'FileCache(%s, directory_layout=%r, link_single_color_images=True): after %r the tile %s is the link %r '
+                         'which resolves to %s; created / written outside the cache directory: %r' % (
+                             os.path.relpath(cdir, base), layout, history, os.path.relpath(loc, base), text, os.path.relpath(target, base),
+                             [os.path.relpath(x, base) for x in stray]), dict(rep, outside_cache_dir=[os.path.relpath(x, base) for x in stray]))
+            elif target != os.path.normpath(real):
+                ctx.fail('fsops,single-colour-file-not-in-single_color_tiles-of-the-cache-dir', 'after %r the tile %s is the link %r which resolves to %s (single colour file: %s)' % (
                     history, os.path.relpath(loc, base), text, os.path.relpath(target, base), os.path.relpath(real, base)), rep)
-            comps = lambda p_: os.path.relpath(p_, cdir).split('/')   # noqa
+            comps = lambda p_: [x for x in os.path.relpath(p_, cdir).split('/') if x != '.']   # noqa (quadkey: the tile lies in cache_dir itself)
             terms3.append('(%s, %s, %s)' % ('[' + '; '.join(strlit(x) for x in comps(real)) + ']',
                                            '[' + '; '.join(strlit(x) for x in comps(os.path.dirname(loc))) + ']',
                                            '[' + '; '.join(strlit(x) for x in text.split('/')) + ']'))
@@ -980,7 +991,11 @@ CACHES = [  # name, yaml of the cache backend, layout (None: not a file cache)
 TIMES = ['2020-01-01', '2020-01-02T00:00:00Z']
 
 
-def make_config(root, perms=False, relative=False, only_file=False):
+LINK_LAYOUTS = [('c_lkmp', 'mp'), ('c_lktms', 'tms'), ('c_lkrtms', 'reverse_tms'), ('c_lkquad', 'quadkey'), ('c_lkarc', 'arcgis')]
+LINK_DEEP = ('lk', 'd1', 'd2', 'd3', 'd4', 'd5', 'd6', 'd7')   # deeper than any layout: a file placed 'n directories above the tile' stays in the scratch root
+
+
+def make_config(root, perms=False, relative=False, only_file=False, link_layouts=False):
     """relative: every path of the configuration is relative (to the directory of the configuration file, <root>/conf);
     perms: directory_permissions / file_permissions are configured"""
     base = os.path.join(root, 'conf') if relative else root
@@ -1025,7 +1040,19 @@ def make_config(root, perms=False, relative=False, only_file=False):
     y += ['  c_fwd:', '    grids: [GLOBAL_MERCATOR]', '    sources: [src]', '    format: image/png', '    cache:', '      type: file',
           '      directory: %s' % cfg(dfwd)]
     dirs['c_fwd'] = (dfwd, 'tc')
+    lk = []
+    if link_layouts:
+        # link_single_color_images together with every non-default directory_layout (symlink and hardlink flavour)
+        for k, (name, layout) in enumerate(LINK_LAYOUTS):
+            d = os.path.join(cache_root, *(LINK_DEEP + (name,)))
+            y += ['  %s:' % name, '    grids: [GLOBAL_MERCATOR]', '    sources: [src]', '    format: image/png',
+                  '    link_single_color_images: %s' % ('hardlink' if k == 4 else 'true'), '    cache:', '      type: file',
+                  '      directory_layout: %s' % layout, '      directory: %s' % cfg(d)]
+            dirs[name] = (d, layout)
+            lk.append(name)
     y += ['layers:', '  - name: l_fwd', '    title: cache and direct source with forwarded vendor parameter', '    sources: [c_fwd, src_fwd]']
+    for name in lk:
+        y += ['  - name: l_%s' % name[2:], '    title: layer %s' % name, '    sources: [%s]' % name]
     for name, backend, layout in caches:
         y += ['  - name: l_%s' % name[2:], '    title: layer %s' % name, '    sources: [%s]' % name]
         if name in ('c_tc', 'c_tms', 'c_quad', 'c_arc'):
@@ -1166,7 +1193,9 @@ def gen_requests(ctx, corpus):
     up = '../' * 8
     matrix = [[('DIM_/' + up + 'outside/n', '1')], [('TIME', up + 'outside/v')], [('DIM_X', up + 'outside/v'), ('DIM_/' + up + 'outside/n2', 'v/' + up + 'w')],
               [('ELEVATION', '/' + 'outside'), ('TIME', TIMES[0])], [('DIM_..\\..\\x', '..\\..\\y')], [('dim_' + up.rstrip('/'), up.rstrip('/'))],
-              [('DIM_\0n', 'v\0')]]
+              [('DIM_\0n', 'v\0')],
+              # a value / name that looks already escaped (has %2F, %25, %5C, %00) AND has raw separators
+              [('TIME', 'x%2F/' + up + 'outside/esc_v')], [('DIM_X%5C/' + up + 'outside/esc_n', '%25/' + up + 'outside/esc_v2'), ('ELEVATION', '%00/' + up + 'outside/esc_v3')]]
     for layer in layers:
         for k, dims in enumerate(matrix):
             reqs.append(getmap(layer, dims, z=1 + k % 2))
@@ -1290,7 +1319,9 @@ def gen_sequences(ctx, cache_dirs, root, under):
             hostile = [benign + up + '/outside/planted/' + tag,
                        benign + up.replace('/', '%2F') + '%2Foutside%2Fplanted%2F' + tag + 'e',
                        benign + '/./' + '../' * 3 + 'outside/planted/' + tag + 'd',
-                       benign + up.replace('/', '\\') + '\\outside\\planted\\' + tag + 'b']
+                       benign + up.replace('/', '\\') + '\\outside\\planted\\' + tag + 'b',
+                       benign + '%2F' + up + '/outside/planted/' + tag + 't',      # escape-looking token + raw separators
+                       benign + '%25%5C%00' + up + '/outside/planted/' + tag + 'u']
             planted = []
             for h in hostile:
                 for cand in sorted({h, unquote(h), unquote(unquote(h)), h.replace('\\', '/')}):
@@ -1355,7 +1386,7 @@ def _stream_wsgi_variant(ctx, corpus, variant, terms, descr):
     os.makedirs(os.path.join(root, 'elsewhere'))
     with open(os.path.join(root, 'secret.txt'), 'w') as f:
         f.write('secret')
-    text, cache_dirs = make_config(root, perms=(variant == 'perm'), relative=(variant == 'relative'))
+    text, cache_dirs = make_config(root, perms=(variant == 'perm'), relative=(variant == 'relative'), link_layouts=(variant == 'linkfirst'))
     if variant == 'lockfault':
         # fault: the volume of the tile lock directory is not there - its parent is a regular file (ENOTDIR for every mkdir below it)
         with open(os.path.join(root, 'lockvolume'), 'w') as f:
@@ -1365,6 +1396,9 @@ def _stream_wsgi_variant(ctx, corpus, variant, terms, descr):
     conf = os.path.join(conf_dir, 'mapproxy.yaml')
     with open(conf, 'w') as f:
         f.write(text)
+    if variant == 'linkfirst':
+        for cname, layout in LINK_LAYOUTS:      # the parent of each of these cache directories exists (operator-made), the cache directory not yet
+            os.makedirs(os.path.dirname(cache_dirs[cname][0]), exist_ok=True)
     if variant == 'main':
         with open(os.path.join(root, 'outside', 'evil.yaml'), 'w') as f:
             f.write(text.replace(os.path.join(root, 'cache_data'), os.path.join(root, 'outside', 'cache_data')))
@@ -1515,12 +1549,24 @@ def _wsgi_requests(ctx, corpus, audit, conf, conf_dir, cache_dirs, judge, under,
                     planted.append(os.path.relpath(os.path.join(up_dir, 'single_color_tiles', name), root))
             steps = [('l_link', [('TIME', '2020'), ('ELEVATION', '100')], 1, 0, 0), ('l_link', [('TIME', '2020')], 1, 1, 0), ('l_link', [], 1, 0, 1),
                      ('l_link', [], 1, 1, 1), ('l_link', [], 1, 0, 1), ('l_link', [('TIME', '2020')], 1, 1, 0), ('l_link', [], 0, 0, 0), ('l_link', [], 0, 0, 0)]
+            # the configuration clause: link_single_color_images with every other directory_layout (tile files lie at other depths
+            # below the cache directory than with tc); stored through WMS and TMS, with and without dimension directories, then read again
+            for cname, layout in LINK_LAYOUTS:
+                lay = 'l_' + cname[2:]
+                steps += [(lay, [], 1, 0, 0), (lay, [('TIME', '2020')], 1, 1, 0), (lay, [], 2, 3, 1), (lay, [], 1, 0, 0), (lay, [('TIME', '2020')], 1, 1, 0)]
             reqs, done = [], []
             for lay, dims, z, x, y in steps:
                 r = wms_getmap(lay, dims, z, x, y)
                 reqs.append((app, 'linkfirst') + r + ({'configuration': 'file cache with link_single_color_images: true; the upstream answers with single colour images',
                                                        'preceded_by': list(done), 'planted_tile_files_outside_cache_dir': planted, 'upstream_single_colour': True},))
                 done.append('/service?' + '&'.join('%s=%s' % kv for kv in r[2]))
+            for cname, layout in LINK_LAYOUTS:
+                lay = 'l_' + cname[2:]
+                for tp in ('/tms/1.0.0/%s/EPSG3857/1/0/1.png' % lay, '/tms/1.0.0/%s/EPSG3857/1/0/1.png' % lay):
+                    reqs.append((app, 'linkfirst', 'tms', tp, [], {}, lay,
+                                 {'configuration': 'file cache with link_single_color_images and directory_layout: %s; the upstream answers with single colour images' % layout,
+                                  'preceded_by': list(done), 'upstream_single_colour': True}))
+                    done.append(tp)
         elif variant == 'lockfault':
             import tempfile
             old_tmp = tempfile.tempdir
